@@ -102,4 +102,11 @@ CHECKS["C34"] = dict(level="exploration", technique="whole-glossary trace judged
          "system), every static member and a set of perturbed non-entry strings are dumped from the real library; TLC evaluates "
          "uniqueness of keys, unambiguous resolution of every name, key round trip, member = registered entry, numeric and ordered bounds.",
     note="Exhaustive over the glossary data of the current tree.", ref="8/C34")
+CHECKS["C56"] = dict(level="exploration", technique="integer crystallography in TLA+ (orbit under the 48 signed permutations) judged by TLC against SlipSystemsDescription",
+    text="For every orthogonal (Burgers vector, plane) pair with indices up to 2 (3 in thorough) and the Cubic, BCC and FCC structures, TLC "
+         "computes the family as the orbit under the cubic point group modulo signs (with gcd reduction; classical cardinalities are "
+         "oracle theorems) and compares it with the generated systems (set equality, no duplicates up to sign, integer orthogonality); "
+         "unit normals/directions, orientation tensors = direction (x) normal, Schmid factors in [-1/2, 1/2] and the rank structure are "
+         "flags computed on the floating-point outputs.",
+    note="HCP is not covered. The statement's rank-symmetry clause contradicts the documentation (non symmetric FCC matrix) and is not asserted.", ref="8/C56")
 NOT_APPLICABLE = {}
